@@ -119,9 +119,9 @@ def h_quic_entry(c, _):
 QDI = "tlexport.quic.quic_dissector"
 
 
-# NOT REGISTERED: this contract is written but the dissector is outside what the engine decides in reasonable time
-# (about 10 CPU-hours of paths, and `int.from_bytes(datagram) == 0` over a symbolic-length datagram is refused).  It is kept
-# as the starting point for a later round; extract_quic_packet is listed as NOT under contract in C02/C03's evidence.
+@harness(["C03", "C02"], "robust.quic_dissector", functions=[QDI + ".extract_quic_packet", QDI + ".get_header_type", QDI + ".get_packet_type"],
+         cases=[(s, suite, fb) for s in (True, False) for suite in (None, b"\x13\x03")
+                for fb in ("long_initial", "long_0rtt", "long_handshake", "long_retry", "short")], timeout=20000, tier="thorough")
 def h_dissector(c, isserver, suite, fb):
     """extract_quic_packet raises nothing for ANY datagram bytes, any guessed connection ID and any available header
     protection keys (library primitives may reject their inputs), and it always consumes: the unparsed remainder it
